@@ -53,10 +53,8 @@ def item_crate(term):
 
 
 def is_load(prog, t, ns, crate=None):
-    """t is the Ok payload of `<ITEM ns>.load(storage)`."""
-    if t[0] == "payload":
-        t = t[1]
-    if t[0] == "trybranch":
+    """t is the Ok payload of `<ITEM ns>.load(storage)` (or the unwrapped Some of `may_load(..)?`)."""
+    while t[0] in ("payload", "trybranch"):
         t = t[1]
     if t[0] != "call" or not t[1].startswith("cw_storage_plus::") or t[1].split("::")[-1] not in ("load", "may_load"):
         return False
@@ -602,3 +600,22 @@ def len_outcomes(prog, ctx, is_subject, extra=()):
         w = ctx.assume_len(is_subject, v).settle()
         out[v] = any(e["kind"] != "err" for e in exits(w))
     return out
+
+
+# ------------------------------------------------------------------ subtraction spellings
+
+
+def minus_operand(v, is_base):
+    """U if v is `base - U` (never below zero spellings included): checked_sub(base, U) unwrapped /
+    with a zero fallback, saturating_sub(base, U), base - U, base -= U.  None otherwise."""
+    x = v
+    if x[0] == "mut" and x[2].endswith("SubAssign::sub_assign") and is_base(x[1]):
+        return x[3][0]
+    if x[0] == "call" and x[1] in ("std::result::Result::unwrap_or_else", "std::result::Result::unwrap_or", "std::result::Result::unwrap_or_default") and x[2]:
+        x = x[2][0]
+    elif x[0] == "payload":
+        x = x[1][1] if x[1][0] == "trybranch" else x[1]
+    if x[0] == "call" and x[1].split("::")[-1] in ("checked_sub", "saturating_sub", "sub") and len(x[2]) == 2 and is_base(x[2][0]):
+        if x[1].startswith("cosmwasm_std::Uint") or x[1] == "std::ops::Sub::sub":
+            return x[2][1]
+    return None
